@@ -52,6 +52,9 @@ type G struct {
 	nextID int
 	used   int
 	shared []ap.Item
+	// listIRIs are the IRIs already placed in some list of this value: a later
+	// list may mention the same addressee again (the same actor in to and cc)
+	listIRIs []ap.IRI
 	// Stats
 	Structs int
 }
@@ -249,10 +252,29 @@ func (g *G) List(depth int, min int) ap.ItemCollection {
 	out := make(ap.ItemCollection, 0, capn)
 	for i := 0; i < n; i++ {
 		var it ap.Item
+		if len(g.listIRIs) > 0 && g.T.Bool(1, 4) {
+			// an addressee another list of this value already names (ids inside one list stay distinct)
+			cand := g.listIRIs[g.T.Draw(len(g.listIRIs))]
+			dup := false
+			for _, x := range out {
+				if x.GetLink() == cand {
+					dup = true
+				}
+			}
+			if !dup {
+				out = append(out, cand)
+				continue
+			}
+		}
 		if depth >= g.K.MaxDepth || g.used >= g.K.Budget || g.T.Bool(1, 2) {
-			it = g.IRI()
+			iri := g.IRI()
+			g.listIRIs = append(g.listIRIs, iri)
+			it = iri
 		} else {
 			it = g.StructItem(g.pickKind(), depth+1, false)
+			if id := it.GetLink(); len(id) > 0 && g.T.Bool(1, 2) {
+				g.listIRIs = append(g.listIRIs, id)
+			}
 		}
 		out = append(out, it)
 	}
